@@ -207,14 +207,21 @@ def do_OP_CHECKSIG(vm: Any) -> None:
     checksigs(vm, [sig_blob], [pair_blob])
 
 
+def _pop_count(vm: Any) -> int:
+    # the key and signature counts are script numbers: at most 4 bytes
+    if len(vm[-1]) > 4:
+        raise ScriptError("script number overflow", errno.UNKNOWN_ERROR)
+    return vm.pop_int()  # type: ignore[no-any-return]
+
+
 def do_OP_CHECKMULTISIG(vm: Any) -> None:
-    key_count = vm.pop_int()
+    key_count = _pop_count(vm)
     if key_count < 0 or key_count > 20:
         raise ScriptError("key_count not in range 0 to 20", errno.PUBKEY_COUNT)
     public_pair_blobs = [vm.pop() for _ in range(key_count)]
     public_pair_blobs.reverse()
 
-    signature_count = vm.pop_int()
+    signature_count = _pop_count(vm)
     if signature_count < 0 or signature_count > key_count:
         raise ScriptError(
             "invalid number of signatures: %d for %d keys"
